@@ -4,6 +4,7 @@ from .. import pk, gen, cmp, corpus
 import propka.output
 
 ID = 'C15'
+HORIZON_S = 1800   # one case = one input under all its transformations
 LEVEL = 'exploration'
 LEVEL_TEXT = ('Every input of the corpus (all 3-group clusters over the titratable kinds in two layouts and three burial levels, '
               'docked acid-acid / base-base / acid-base pairs at contact distances, cut-outs around every titratable residue of the '
